@@ -116,3 +116,105 @@ package pkg
 // the time leaves compare instants: location never matters
 //@ lemma[C19] cmp3_time_location_free: forall l RV, l2 RV, r RV :: class(l) == 6 && class(l2) == 6 && class(r) == 6 && l.tm.wall == l2.tm.wall && l.tm.ext == l2.tm.ext
 //@        ==> cmp3(l, r) == cmp3(l2, r)
+
+// ---------------------------------------------------------------------------------------------------------
+// C05: arithmetic / bitwise / logical operators against ONE class-level specification (signed / unsigned /
+// float), never a per-kind one: every cell of every kind x kind table must agree with it.
+// Result kinds: Int64=6, Uint64=11, Float64=14, String=24, Bool=1.
+// ---------------------------------------------------------------------------------------------------------
+//@ pure func isIntC(v RV) bool  { return class(v) == 1 || class(v) == 2 }
+//@ pure func bothInt(l RV, r RV) bool  { return isIntC(l) && isIntC(r) }
+//@ pure func anyFloat(l RV, r RV) bool { return isNum(l) && isNum(r) && (class(l) == 3 || class(r) == 3) }
+//@ pure func intResKind(l RV, r RV) int { return ite(class(l) == 2 && class(r) == 2, 11, 6) }
+// per-verb formatters of fmt (uninterpreted, T-FMT)
+//@ extern pure func fmt_d_int(x bv64) string
+//@ extern pure func fmt_d_uint(x bv64) string
+//@ extern pure func fmt_f_F64(x float64) string
+//@ extern pure func fmt_v_Bool(x bool) string
+//@ extern pure func time_format(t Time, layout string) string
+//@ pure func fmtNum(v RV) string { return ite(class(v) == 1, fmt_d_int(v.bits), ite(class(v) == 2, fmt_d_uint(v.bits), fmt_f_F64(v.f))) }
+
+//@ func EvaluateMultiplication(left, right) (res, err)
+//@   serves C05
+//@   ints bv
+//@   requires wfRV(strip(left)) && wfRV(strip(right)) && isNum(strip(left)) && isNum(strip(right))
+//@   nopanic
+//@   ensures err == nil
+//@   ensures bothInt(strip(left), strip(right)) ==> res.kind == intResKind(strip(left), strip(right)) && res.bits == strip(left).bits * strip(right).bits
+//@   ensures anyFloat(strip(left), strip(right)) ==> res.kind == 14 && res.f == toF(strip(left)) * toF(strip(right))
+
+//@ func EvaluateSubtraction(left, right) (res, err)
+//@   serves C05
+//@   ints bv
+//@   requires wfRV(strip(left)) && wfRV(strip(right)) && isNum(strip(left)) && isNum(strip(right))
+//@   nopanic
+//@   ensures err == nil
+//@   ensures bothInt(strip(left), strip(right)) ==> res.kind == intResKind(strip(left), strip(right)) && res.bits == strip(left).bits - strip(right).bits
+//@   ensures anyFloat(strip(left), strip(right)) ==> res.kind == 14 && res.f == toF(strip(left)) - toF(strip(right))
+
+// `/` always yields the real (float64) quotient, also for two integers
+//@ func EvaluateDivision(left, right) (res, err)
+//@   serves C05
+//@   ints bv
+//@   requires wfRV(strip(left)) && wfRV(strip(right)) && isNum(strip(left)) && isNum(strip(right))
+//@   nopanic
+//@   ensures err == nil && res.kind == 14 && res.f == toF(strip(left)) / toF(strip(right))
+
+// `%`: integers only, Go's truncated remainder on the int64 reading (unsigned operands inside the int64 range,
+// divisor non-zero: the property's "free of overflow and division by zero")
+//@ func EvaluateModulo(left, right) (res, err)
+//@   serves C05
+//@   ints bv
+//@   requires wfRV(strip(left)) && wfRV(strip(right)) && bothInt(strip(left), strip(right)) && strip(right).bits != bv(0)
+//@   requires (class(strip(left)) == 2 ==> strip(left).bits >= bv(0)) && (class(strip(right)) == 2 ==> strip(right).bits >= bv(0))
+//@   nopanic
+//@   ensures err == nil && res.kind == 6 && res.bits == srem(strip(left).bits, strip(right).bits)
+
+//@ func EvaluateBitAnd(left, right) (res, err)
+//@   serves C05
+//@   ints bv
+//@   requires wfRV(strip(left)) && wfRV(strip(right)) && bothInt(strip(left), strip(right))
+//@   nopanic
+//@   ensures err == nil && res.kind == intResKind(strip(left), strip(right)) && res.bits == strip(left).bits & strip(right).bits
+
+//@ func EvaluateBitOr(left, right) (res, err)
+//@   serves C05
+//@   ints bv
+//@   requires wfRV(strip(left)) && wfRV(strip(right)) && bothInt(strip(left), strip(right))
+//@   nopanic
+//@   ensures err == nil && res.kind == intResKind(strip(left), strip(right)) && res.bits == strip(left).bits | strip(right).bits
+
+// `+`: numbers add; as soon as a string is involved it concatenates (numbers %d / %f, bool %v, time RFC3339)
+//@ func EvaluateAddition(left, right) (res, err)
+//@   serves C05
+//@   ints bv
+//@   requires wfRV(strip(left)) && wfRV(strip(right))
+//@   requires (isNum(strip(left)) && isNum(strip(right))) || (class(strip(left)) == 4 && class(strip(right)) != 0)
+//@         || (isNum(strip(left)) && class(strip(right)) == 4)
+//@   nopanic
+//@   ensures err == nil
+//@   ensures bothInt(strip(left), strip(right)) ==> res.kind == intResKind(strip(left), strip(right)) && res.bits == strip(left).bits + strip(right).bits
+//@   ensures anyFloat(strip(left), strip(right)) ==> res.kind == 14 && res.f == toF(strip(left)) + toF(strip(right))
+//@   ensures class(strip(left)) == 4 && class(strip(right)) == 4 ==> res.kind == 24 && res.s == strip(left).s + strip(right).s
+//@   ensures class(strip(left)) == 4 && isNum(strip(right)) ==> res.kind == 24 && res.s == strip(left).s + fmtNum(strip(right))
+//@   ensures isNum(strip(left)) && class(strip(right)) == 4 ==> res.kind == 24 && res.s == fmtNum(strip(left)) + strip(right).s
+//@   ensures class(strip(left)) == 4 && class(strip(right)) == 5 ==> res.kind == 24 && res.s == strip(left).s + fmt_v_Bool(strip(right).b)
+//@   ensures class(strip(left)) == 4 && class(strip(right)) == 6 ==> res.kind == 24 && res.s == strip(left).s + time_format(strip(right).tm, "2006-01-02T15:04:05Z07:00")
+
+//@ func EvaluateLogicAnd(left, right) (res, err)
+//@   serves C05
+//@   requires strip(left).kind == 1 && strip(right).kind == 1
+//@   nopanic
+//@   ensures err == nil && res.kind == 1 && res.b == (strip(left).b && strip(right).b)
+
+//@ func EvaluateLogicOr(left, right) (res, err)
+//@   serves C05
+//@   requires strip(left).kind == 1 && strip(right).kind == 1
+//@   nopanic
+//@   ensures err == nil && res.kind == 1 && res.b == (strip(left).b || strip(right).b)
+
+//@ func EvaluateLogicSingle(left) (res, err)
+//@   serves C05
+//@   requires strip(left).kind == 1
+//@   nopanic
+//@   ensures err == nil && res.kind == 1 && res.b == strip(left).b
